@@ -13,6 +13,7 @@ from xknx.dpt.dpt import DPTEnum
 
 PROPERTY = "C10"
 MODULES = ["XknxVerif.Props.C10"]
+DRIVE_PROCS = 8
 CASE_TIMEOUT = 20.0
 RULE = ("every DPTComplex / DPTEnum class x {all 64 DPTBinary values, all 256 one-octet arrays, for 3..8-octet classes every octet "
         "value in every position over two base patterns + 3000 (quick) / 20000 (thorough) random payloads, for DPT 19 additionally every "
